@@ -160,6 +160,12 @@ def _test_slug_func(text: str) -> str:
     return text[::-1]
 
 
+def check_heading_anchors(_: "MdParserConfig", field: dc.Field, value: Any) -> None:
+    """Check that heading_anchors is an integer heading level (or 0)."""
+    instance_of(int)(_, field, value)
+    in_([0, 1, 2, 3, 4, 5, 6, 7])(_, field, value)
+
+
 def check_words_per_minute(_: "MdParserConfig", field: dc.Field, value: Any) -> None:
     """Check that the words_per_minute is a positive integer (it is used as a divisor)."""
     instance_of(int)(_, field, value)
@@ -296,7 +302,7 @@ class MdParserConfig:
     heading_anchors: int = dc.field(
         default=0,
         metadata={
-            "validator": in_([0, 1, 2, 3, 4, 5, 6, 7]),
+            "validator": check_heading_anchors,
             "help": "Heading level depth to assign HTML anchors",
         },
     )
